@@ -16,6 +16,7 @@ RULE = (
     "any order, optionally a third, unknown and not-required region entry in any position) plus requests biased to the boundaries of described blocks; an independent writer (MS-VHDX) builds image + "
     "model; VHDX(fh).read / read_sectors must equal the model. Non-trivial = a request starts mid-block and crosses into a "
     "block that is not physically adjacent, or touches a block index >= chunk_ratio."
+    ' Creator fields filled to the last unit, cut inside a surrogate pair or holding arbitrary bytes; images also opened through a minimal file object or by a second reader on the same handle after the first was dropped; a second process variant runs with debug logging switched on.'
 )
 ASSUMPTIONS = [
     "only the metadata items the specification defines as system items are written (no user metadata)",
